@@ -254,21 +254,76 @@ def leaf_contract_real(run, n_per_class):
     return bad
 
 
+VEC_POOL = {"length": [0.0, 0.3, 1.0], "k1": [0.0, 2.0, -3.0], "angle": [0.0, 0.05, -0.1], "k": [0.0, 1.0], "voltage": [0.0, 2e6, 3e6, -1e6],
+            "tilt": [0.0, 0.2]}
+
+
+def vectorise_some(rng, lat, nb=None):
+    """give one or two elements of a real lattice a vectorised parameter (batch of 2 or 3 settings, zeros mixed in)"""
+    nb = nb or rng.choice([2, 3])
+    leaves = []
+
+    def collect(e):
+        if e["cls"] == "Segment":
+            for c in e["es"]:
+                collect(c)
+        elif any(k in VEC_POOL for k in e["kw"]):
+            leaves.append(e)
+    collect(lat)
+    for e in rng.sample(leaves, min(len(leaves), rng.choice([1, 2]))):
+        k = rng.choice([k for k in e["kw"] if k in VEC_POOL])
+        e["kw"][k] = [rng.choice(VEC_POOL[k]) for _ in range(nb)]
+        if e["cls"] == "Cavity" and k == "voltage":
+            e["kw"]["phase"] = rng.choice([150.0, 200.0, 0.0])
+
+
+def targeted_lattices(rng):
+    """Lattices aimed at the combinations the quantifier names explicitly: energy-changing elements with vectorised settings
+    (some entries switched off), non-mergeable elements between mergeable runs, zero-length elements that act on the beam."""
+    def D(n, L=0.5):
+        return {"cls": "Drift", "name": n, "kw": {"length": L, "tracking_method": "cheetah"}}
+
+    def Q(n, k1=2.0):
+        return {"cls": "Quadrupole", "name": n, "kw": {"length": 0.2, "k1": k1, "tracking_method": "cheetah"}}
+
+    def C(n, V, ph):
+        return {"cls": "Cavity", "name": n, "kw": {"length": 1.0, "voltage": V, "phase": ph, "frequency": 1.3e9}}
+    out = []
+    for V, ph in (([0.0, 2e6, 3e6], 150.0), ([-1e6, -2e6], 0.0), ([0.0, -1e6], 0.0), (-2e6, 0.0), ([2e6, 0.0], 200.0)):
+        out.append({"cls": "Segment", "name": "t", "es": [D("d1"), C("c1", V, ph), Q("q1"), D("d2")]})
+        out.append({"cls": "Segment", "name": "t", "es": [D("d1"), {"cls": "Segment", "name": "inner", "es": [C("c1", V, ph), Q("q1", -1.0)]}, D("d2")]})
+    out.append({"cls": "Segment", "name": "t", "es": [D("d1"), {"cls": "HorizontalCorrector", "name": "h", "kw": {"length": 0.0, "angle": 2e-3}},
+                                                      {"cls": "VerticalCorrector", "name": "v", "kw": {"length": 0.0, "angle": [1e-3, 0.0, -1e-3]}}, Q("q1"), D("d2")]})
+    return out
+
+
 def e2e_real(run, n):
     """Segment.track vs fold of element.track; flattened; nest; cut; length -- on real lattices."""
     import cheetah
     bad = []
-    for i in range(n):
-        lat = realgen.gen_lattice(run.rng, n_max=6, depth=2)
-        bt = run.rng.choice(["particle", "parameter"])
+    targeted = targeted_lattices(run.rng)
+    for i in range(n + 2 * len(targeted)):
+        if i < 2 * len(targeted):
+            lat = targeted[i // 2]
+            run.count("e2e_targeted")
+        else:
+            lat = realgen.gen_lattice(run.rng, n_max=6, depth=2)
+            if run.rng.random() < 0.3:
+                vectorise_some(run.rng, lat)
+                run.count("e2e_vectorised_elements")
+        bt = ["particle", "parameter"][i % 2] if i < 2 * len(targeted) else run.rng.choice(["particle", "parameter"])
         beam = realgen.gen_particle_beam(run.rng) if bt == "particle" else realgen.gen_parameter_beam(run.rng)
         try:
             seg = realgen.build(lat)
             b = realgen.build_beam(beam)
-            out = seg.track(b)
             ref = fold_track(seg, b)
         except Exception:
-            run.count("e2e_exception")
+            run.count("e2e_input_rejected")     # the elements themselves reject this input (e.g. Bmad-X with a ParameterBeam): unspecified
+            continue
+        try:
+            out = seg.track(b)
+        except Exception as ex:  # noqa -- element-by-element tracking works but Segment.track raises: a violation of the property
+            bad.append({"kind": "e2e", "lattice": lat, "beam": beam, "diffs": {"fold": [("Segment.track raised " + type(ex).__name__ + ": " + str(ex)[:120], float("inf"))]}})
             continue
         if has_nan(ref):
             run.count("e2e_skipped_reference_has_nan")   # garbage in (e.g. Bmad-X bend at angle 0, a C09 finding): unspecified here
@@ -284,8 +339,9 @@ def e2e_real(run, n):
             mid = cheetah.Segment(els[:k]).track(b) if k > 0 else b
             cut = cheetah.Segment(els[k:]).track(mid) if k < len(els) else mid
             d3 = realgen.beams_close(cut, out, rtol=1e-9, atol=1e-13)
-            tot = sum(float(torch.as_tensor(e.length).sum()) for e in seg.flattened().elements)
-            d4 = [] if abs(float(seg.length.sum()) - tot) <= 1e-12 * max(1.0, abs(tot)) else [("length", abs(float(seg.length.sum()) - tot))]
+            tot = sum(torch.as_tensor(e.length, dtype=torch.float64) for e in seg.flattened().elements)     # broadcasts vectorised lengths
+            dl = (torch.as_tensor(seg.length, dtype=torch.float64) - tot).abs().max()
+            d4 = [] if float(dl) <= 1e-12 * max(1.0, float(torch.as_tensor(tot).abs().max())) else [("length", float(dl))]
         except Exception:
             d3, d4 = [], []
         if d or d2 or d3 or d4:
